@@ -24,6 +24,7 @@ type c01case struct {
 	info   ref.BlockInfo
 	prefix []byte
 	bulk   bool
+	lcBump int // reference encoding uses LowCardinality keys wider than necessary by this many steps
 }
 
 func (c c01case) sample() any {
@@ -142,7 +143,7 @@ func checkC01(rt *rapid.T, c c01case) {
 	for _, col := range c.cols {
 		hasLC = hasLC || col.Kind.T.HasLC()
 	}
-	re := &ref.Enc{NoMap: true}
+	re := &ref.Enc{NoMap: true, LCBump: c.lcBump}
 	ref.EncodeBlock(re, c.rev, model)
 	if !hasLC && !bytes.Equal(re.B, data) {
 		rt.Fatalf("library bytes differ from reference encoding:\nlib %x\nref %x", data, re.B)
@@ -232,6 +233,31 @@ func checkC01(rt *rapid.T, c c01case) {
 		}
 	}
 
+	// (4b) the same through proto.AutoResult targets (a ColAuto per column inside typed Results).
+	if inferable {
+		var res proto.Results
+		for _, col := range c.cols {
+			res = append(res, proto.AutoResult(col.Name))
+		}
+		var b proto.Block
+		r := readerOf(data)
+		if err := safely(func() error { return b.DecodeBlock(r, c.rev, res) }); err != nil {
+			rt.Fatalf("DecodeBlock into proto.AutoResult targets for %v: %v", typeNames(c.cols), err)
+		}
+		if !atEOF(r) {
+			rt.Fatalf("AutoResult decode did not consume all bytes")
+		}
+		for i, rc := range res {
+			vals, err := gen.ReflectRows(c.cols[i].Kind.T, rc.Data)
+			if err != nil {
+				rt.Fatalf("AutoResult column %d (%s): %v", i, c.cols[i].Kind.T.Name, err)
+			}
+			if j, ok := ref.EqualRows(c.cols[i].Kind.T, vals, c.cols[i].Rows); !ok {
+				rt.Fatalf("AutoResult column %d (%s): row %d differs (%d rows read, want %d)", i, c.cols[i].Kind.T.Name, j, len(vals), c.rows)
+			}
+		}
+	}
+
 	// (5) raw block (no block info) round trip.
 	{
 		_, in3 := libInput(c.cols, c.bulk)
@@ -289,7 +315,7 @@ func TestC01Block(t *testing.T) {
 			cols: cols, rows: rows,
 			rev:  rapid.SampledFrom(blockRevs).Draw(rt, "rev"),
 			info: ref.BlockInfo{Overflows: rapid.Bool().Draw(rt, "overflows"), BucketNum: rapid.OneOf(rapid.Just(int32(-1)), rapid.Int32()).Draw(rt, "bucket")},
-			bulk: rapid.Bool().Draw(rt, "bulk"),
+			bulk: rapid.Bool().Draw(rt, "bulk"), lcBump: rapid.IntRange(0, 3).Draw(rt, "lc-key-width-bump"),
 		}
 		if rapid.Bool().Draw(rt, "prefixed") {
 			c.prefix = rapid.SliceOfN(rapid.Byte(), 1, 40).Draw(rt, "prefix")
